@@ -33,15 +33,16 @@ AllPKinds == {"slice8", "slice64", "str8", "str16", "strs", "st", "opt", "pl", "
 SliceKinds == {"slice8", "slice64", "str8", "str16", "strs"}
 Borrowable == {"slice8", "slice64", "str8", "str16", "st"}
 \*  unit | prim u32 | hold Box<Hold<'a>> | out Pl | result Result<u32, Er> | opt Option<u16> | write (DiplomatWrite, returns string)
-\*  reshold Result<Box<Hold<'a>>, Er>
-AllRKinds == {"unit", "prim", "hold", "out", "result", "opt", "write", "reshold"}
+\*  reshold Result<Box<Hold<'a>>, Er> | box Box<Opq> (owned, borrows nothing) | optbox Option<Box<Opq>> | ref &'a Opq borrowed from &'a self
+AllRKinds == {"unit", "prim", "hold", "out", "result", "opt", "write", "reshold", "box", "optbox", "ref"}
 Borrowing == {"hold", "reshold"}
-Fallible == {"result", "opt", "reshold"}
+Fallible == {"result", "opt", "reshold", "optbox"}
 
 ParamSeqs == UNION {[1..n -> PKinds] : n \in 0..MaxParams}
 Case == {c \in [abi : Abi, self : {"none", "ref"}, params : ParamSeqs, borrow : SUBSET (1..MaxParams), ret : RKinds, ok : BOOLEAN] :
            /\ \A i \in c.borrow : i \in DOMAIN c.params /\ c.params[i] \in Borrowable
            /\ (c.ret \in Borrowing) <=> (c.borrow # {})           \* a borrowing return borrows from some parameter, and only then
+           /\ (c.ret = "ref" => c.self = "ref")                    \* a returned reference borrows from the receiver
            /\ (c.ret \notin Fallible => c.ok)}                    \* the ok flag only matters for fallible returns
 
 \* ---- the plan ---------------------------------------------------------------------------------
@@ -78,6 +79,9 @@ Plan(c) ==
 \* one finalizer registration per borrowed parameter
 ExpectedRegs(c) == Cardinality(c.borrow)
 CanThrow(c) == c.ret \in {"result", "reshold"} /\ ~c.ok
+\* an OWNED opaque handed back to JS (Box<T>) is registered with the type's destroy finalizer exactly once; a borrowed one (&T) never
+RetPtr == 28672       \* 0x7000: the address the stub hands out for a returned opaque
+ExpectedOregs(c) == IF c.ret \in {"hold", "box"} \/ (c.ret \in {"reshold", "optbox"} /\ c.ok) THEN 1 ELSE 0
 
 \* ---- the machine --------------------------------------------------------------------------------
 VARIABLES cs,        \* the method shape being executed
@@ -85,12 +89,14 @@ VARIABLES cs,        \* the method shape being executed
           phase,     \* marshal -> wasm -> post -> held -> final -> done
           regs,      \* finalizer registrations made
           fin,       \* ... and run
-          wst        \* the write-out handle: none | open | closed
-vars == <<cs, heap, phase, regs, fin, wst>>
+          wst,       \* the write-out handle: none | open | closed
+          oreg,      \* destroy-finalizer registrations made for the returned opaque (0 or 1)
+          odes       \* ... and run
+vars == <<cs, heap, phase, regs, fin, wst, oreg, odes>>
 
 Live(i) == heap[i].st = "live"
 AllLive == \A i \in 1..Len(heap) : Live(i)
-Init == cs \in Case /\ heap = <<>> /\ phase = "marshal" /\ regs = 0 /\ fin = 0 /\ wst = "none"
+Init == cs \in Case /\ heap = <<>> /\ phase = "marshal" /\ regs = 0 /\ fin = 0 /\ wst = "none" /\ oreg = 0 /\ odes = 0
 
 \* diplomat_alloc(size, align) returned p: the next buffer of the plan, with the planned size and alignment, at a fresh address
 Alloc(p, sz, al) ==
@@ -99,10 +105,10 @@ Alloc(p, sz, al) ==
        /\ e.size = sz /\ e.align = al
        /\ \A i \in 1..Len(heap) : heap[i].ptr # p
        /\ heap' = Append(heap, [ptr |-> p, st |-> "live", size |-> sz, align |-> al, cls |-> e.cls, root |-> e.root, head |-> e.head])
-  /\ UNCHANGED <<cs, phase, regs, fin, wst>>
-WriteOpen == phase = "marshal" /\ cs.ret = "write" /\ wst = "none" /\ wst' = "open" /\ UNCHANGED <<cs, heap, phase, regs, fin>>
+  /\ UNCHANGED <<cs, phase, regs, fin, wst, oreg, odes>>
+WriteOpen == phase = "marshal" /\ cs.ret = "write" /\ wst = "none" /\ wst' = "open" /\ UNCHANGED <<cs, heap, phase, regs, fin, oreg, odes>>
 \* a finalizer is registered for a borrowed parameter's buffers (struct fields: while marshalling; slices: on the way out)
-Register == phase \in {"marshal", "post"} /\ regs < ExpectedRegs(cs) /\ regs' = regs + 1 /\ UNCHANGED <<cs, heap, phase, fin, wst>>
+Register == phase \in {"marshal", "post"} /\ regs < ExpectedRegs(cs) /\ regs' = regs + 1 /\ UNCHANGED <<cs, heap, phase, fin, wst, oreg, odes>>
 \* the wasm export is called: everything planned has been made and is alive, every argument is a number and the address of
 \* every head buffer is among the arguments
 Call(args, nonnum) ==
@@ -110,8 +116,8 @@ Call(args, nonnum) ==
   /\ (cs.ret = "write") => wst = "open"
   /\ nonnum = 0
   /\ \A i \in 1..Len(heap) : heap[i].head => heap[i].ptr \in args
-  /\ phase' = "wasm" /\ UNCHANGED <<cs, heap, regs, fin, wst>>
-Return == phase = "wasm" /\ phase' = "post" /\ UNCHANGED <<cs, heap, regs, fin, wst>>
+  /\ phase' = "wasm" /\ UNCHANGED <<cs, heap, regs, fin, wst, oreg, odes>>
+Return == phase = "wasm" /\ phase' = "post" /\ UNCHANGED <<cs, heap, regs, fin, wst, oreg, odes>>
 \* diplomat_free(p, size, align): a live buffer, with the size and alignment it was made with; call-scoped buffers on the way out,
 \* gc-scoped ones only from their finalizer
 Free(p, sz, al) ==
@@ -120,20 +126,26 @@ Free(p, sz, al) ==
        /\ \/ phase = "post" /\ heap[i].cls = "call"
           \/ phase = "final" /\ heap[i].cls = "gc" /\ fin > 0
        /\ heap' = [heap EXCEPT ![i].st = "freed"]
-  /\ UNCHANGED <<cs, phase, regs, fin, wst>>
-WriteClose == phase = "post" /\ wst = "open" /\ wst' = "closed" /\ UNCHANGED <<cs, heap, phase, regs, fin>>
+  /\ UNCHANGED <<cs, phase, regs, fin, wst, oreg, odes>>
+WriteClose == phase = "post" /\ wst = "open" /\ wst' = "closed" /\ UNCHANGED <<cs, heap, phase, regs, fin, oreg, odes>>
 \* the method returns or throws: nothing call-scoped is left, the write-out is closed, every borrowed parameter is registered
 End(threw) ==
   /\ phase = "post"
   /\ \A i \in 1..Len(heap) : heap[i].cls = "call" => ~Live(i)
-  /\ wst # "open" /\ regs = ExpectedRegs(cs)
+  /\ wst # "open" /\ regs = ExpectedRegs(cs) /\ oreg = ExpectedOregs(cs)
   /\ threw <=> CanThrow(cs)
-  /\ phase' = "held" /\ UNCHANGED <<cs, heap, regs, fin, wst>>
+  /\ phase' = "held" /\ UNCHANGED <<cs, heap, regs, fin, wst, oreg, odes>>
 \* while the caller holds the returned object, the collector finds every registered buffer reachable
 Probe(alive) == phase = "held" /\ alive = regs /\ UNCHANGED vars
-DropResult == phase = "held" /\ phase' = "final" /\ UNCHANGED <<cs, heap, regs, fin, wst>>
-Finalize == phase = "final" /\ fin < regs /\ fin' = fin + 1 /\ UNCHANGED <<cs, heap, phase, regs, wst>>
-Quiesce == phase = "final" /\ fin = regs /\ (\A i \in 1..Len(heap) : ~Live(i)) /\ phase' = "done" /\ UNCHANGED <<cs, heap, regs, fin, wst>>
+DropResult == phase = "held" /\ phase' = "final" /\ UNCHANGED <<cs, heap, regs, fin, wst, oreg, odes>>
+Finalize == phase = "final" /\ fin < regs /\ fin' = fin + 1 /\ UNCHANGED <<cs, heap, phase, regs, wst, oreg, odes>>
+\* the wrapper of an owned opaque registers the address it was handed with the destroy finalizer (while the result is unpacked)
+RegisterOpaque(p) == phase = "post" /\ oreg = 0 /\ ExpectedOregs(cs) = 1 /\ p = RetPtr /\ oreg' = 1
+                     /\ UNCHANGED <<cs, heap, phase, regs, fin, wst, odes>>
+\* ... and after the wrapper is collected the finalizer destroys exactly that address, once
+DestroyOpaque(p) == phase = "final" /\ oreg = 1 /\ odes = 0 /\ p = RetPtr /\ odes' = 1
+                    /\ UNCHANGED <<cs, heap, phase, regs, fin, wst, oreg>>
+Quiesce == phase = "final" /\ fin = regs /\ odes = oreg /\ (\A i \in 1..Len(heap) : ~Live(i)) /\ phase' = "done" /\ UNCHANGED <<cs, heap, regs, fin, wst, oreg, odes>>
 Stay == phase = "done" /\ UNCHANGED vars
 
 Heads == {heap[i].ptr : i \in {j \in 1..Len(heap) : heap[j].head}}
@@ -141,6 +153,7 @@ Next == \/ \E p \in 1..(Len(heap) + 1) : Len(heap) < Len(Plan(cs)) /\ Alloc(p, P
         \/ WriteOpen \/ Register \/ Call(Heads, 0) \/ Return
         \/ (\E i \in 1..Len(heap) : Free(heap[i].ptr, heap[i].size, heap[i].align))
         \/ WriteClose \/ End(CanThrow(cs)) \/ Probe(regs) \/ DropResult \/ Finalize \/ Quiesce \/ Stay
+        \/ RegisterOpaque(RetPtr) \/ DestroyOpaque(RetPtr)
 Spec == Init /\ [][Next]_vars
 
 \* ---- properties -------------------------------------------------------------------------------
@@ -150,5 +163,7 @@ CallScopedGoneAtReturn == phase \in {"held", "final", "done"} => \A i \in 1..Len
 NoLeak == phase = "done" => \A i \in 1..Len(heap) : ~Live(i)
 \* every gc-scoped buffer belongs to a borrowed parameter, so some finalizer is responsible for it
 GcHasOwner == \A i \in 1..Len(heap) : heap[i].cls = "gc" => heap[i].root \in cs.borrow
+\* an opaque is destroyed at most once, and only one that was handed out as owned
+OpaqueOnce == odes <= oreg /\ oreg <= ExpectedOregs(cs)
 \* the plan can always be carried through: the machine never gets stuck before "done" (checked as deadlock freedom)
 =============================================================================
